@@ -447,9 +447,27 @@ class Engine(StmtMixin):
         for cl in _clauses(c.env.get("atomic_inv", [])):
             self.oblige(st, self.eval_clause(cl, st, sctx), "atomic-inv", line, f"before-suspension:{cl.name}", cl.tags)
         for pth in rh:
+            if pth.startswith("?"):
+                # optional path: only when its root variable is bound at this suspension point
+                root = pth[1:].split(".")[0]
+                fr, found = sctx.frame, False
+                while fr is not None:
+                    if root in st.heap[fr.oid]:
+                        found = True
+                        break
+                    fr = st.heap[fr.oid].get("$parent")
+                if not found:
+                    continue
+                pth = pth[1:]
             self.havoc_path(st, sctx, pth)
         for cl in _clauses(ri) + _clauses(c.env.get("atomic_inv", [])):
             st.assume(self.eval_clause(cl, st, sctx))
+
+    def ghost_on_return(self, st: State, c: Contract, sctx: Ctx) -> None:
+        """Ghost instrumentation attached to the event "this function returned normally" (contract env `ghost_on_return`)."""
+        for gname, expr in c.env.get("ghost_on_return", {}).items():
+            v = self.eval1(ast.parse(expr, mode="eval").body, st, sctx)
+            st.heap[st.ghost][gname] = ops.lift(v)
 
     def oblige_sat(self, st: State, line: int, name: str) -> None:
         base = f"{self.cur_fn_key}:vacuity:{name}"
@@ -468,6 +486,7 @@ class Engine(StmtMixin):
         if isinstance(oc, (Normal, Return)):
             val = oc.val if isinstance(oc, Return) else None
             ectx.specials["result"] = val
+            self.ghost_on_return(st, c, ectx)
             for cl in c.ensures:
                 self.oblige(st, self.eval_clause(cl, st, ectx), "ensures", fi.node.lineno, cl.name, cl.tags)
             if "$noreturn" in c.env:
